@@ -29,7 +29,7 @@ def check_volume(vol, data, temp, where):
     if not np.all(np.isfinite(Fd)):
         idx = tuple(int(i) for i in np.argwhere(~np.isfinite(Fd))[0])
         raise Violation('finite-everywhere', f'{where}: F{idx} = {Fd[idx]!r} for density {data[idx]!r} (dtype {data.dtype})')
-    rt = 2e-6 if data.dtype == np.float32 else 1e-12
+    rt = {np.dtype('float32'): 2e-6, np.dtype('float16'): 4e-3}.get(data.dtype, 1e-12)
     d64 = data.astype(np.float64)
     visited = d64 > 0
     p = d64 / d64.sum()
@@ -47,7 +47,7 @@ def check_volume(vol, data, temp, where):
     if np.any(np.abs(z - p[visited]) > lim):
         i = int(np.argmax(np.abs(z - p[visited]) - lim))
         raise Violation('exp-recovers-p', f'{where}: exp(-F/kT) = {z[i]!r} but p = {p[visited][i]!r}')
-    if abs(z.sum() - 1) > (1e-4 if data.dtype == np.float32 else 1e-9):
+    if abs(z.sum() - 1) > {np.dtype('float32'): 1e-4, np.dtype('float16'): 5e-2}.get(data.dtype, 1e-9):
         raise Violation('boltzmann-weights-sum-to-one', f'{where}: sum exp(-F/kT) over visited voxels = {z.sum()!r}')
     # monotone: denser voxel never has a higher free energy
     order = np.argsort(d64[visited], kind='stable')
@@ -116,12 +116,14 @@ def run(case):
 def grids(draw, tier):
     shape = [draw(st.integers(1, 6)) for _ in range(3)]
     n = int(np.prod(shape))
-    dtype = draw(st.sampled_from(['int64', 'int64', 'float64', 'float64', 'float32', 'int32', 'uint16', 'int16', 'uint8']))
+    dtype = draw(st.sampled_from(['int64', 'int64', 'float64', 'float64', 'float32', 'float16', 'int32', 'uint16', 'int16', 'uint8']))
     if 'int' in dtype:
         top = {'int64': 2_000_000_000, 'int32': 100000, 'uint16': 60000, 'int16': 30000, 'uint8': 250}[dtype]
         val = st.one_of(st.just(0), st.just(0), st.integers(1, 50), st.integers(1, top), st.sampled_from([1, 1, 2, top]))
     else:
         val = st.one_of(st.just(0.0), st.just(0.0), st.floats(1e-3, 1e3), st.floats(1.0, 1e12), st.sampled_from([1.0, 0.5, 3.0]))
+        if dtype == 'float16':
+            val = st.one_of(st.just(0.0), st.just(0.0), st.floats(0.5, 200.0), st.sampled_from([1.0, 0.5, 3.0]))
 
     def grid():
         v = draw(st.lists(val, min_size=n, max_size=n))
